@@ -238,8 +238,13 @@ def run(prog, ctx):
                 outer0, outer1 = comps[0][0], comps[1][0]
                 it0, it1 = outer0[3][0][1], outer1[3][0][1]
                 zipped = ("call", ("n", "zip"), (D0, D1), ())
-                ok = it0 == it1 and contains(it0, zipped) and contains(outer0[2], ("s", ("bv", "$0"), ("c", "0"))) \
-                    and contains(outer1[2], ("s", ("bv", "$0"), ("c", "1")))
+                # element k of each zipped pair: pair[k] with a single loop variable, or the k-th variable of an unpacking target
+                def comp_of(outer, k):
+                    tgt = outer[3][0][0]
+                    if tgt[0] == "tuple" and len(tgt) == 3:
+                        return contains(outer[2], tgt[1 + k]) and not contains(outer[2], tgt[2 - k])
+                    return contains(outer[2], ("s", ("bv", "$0"), ("c", str(k))))
+                ok = it0 == it1 and contains(it0, zipped) and comp_of(outer0, 0) and comp_of(outer1, 1)
         ctx.check(ok, "C18.D3", R.key_of(sh, "aligned:_data"), sh.loc(s.stmt),
                   "samples and labels are taken from the same shuffled sequence of (sample, label) pairs",
                   "`%s` does not rebuild samples and labels from one shuffled sequence of zipped pairs" % src(s.stmt))
@@ -337,11 +342,25 @@ def check_bookkeeping(prog, ctx, ds):
         OV = ("n", ov)
         atoms_seen = set()
 
-        def truth(t, sigma):
+        tdeep_ = Terms(fi.node)
+
+        def truth(t, sigma, depth=0):
             if t == OV:
                 return sigma[0]
             if t == SC:
                 return sigma[1]
+            if t[0] == "n" and t[1] not in fi.params and depth < 3:
+                b_ = tm.env.single(t[1])
+                if b_ is not None and b_.kind == "assign" and b_.value is not None:
+                    return truth(tm.term(b_.value), sigma, depth + 1)     # a flag computed once at the top
+                return None
+            if t[0] == "call" and t[1] == ("n", "bool") and len(t[2]) == 1:
+                return truth(t[2][0], sigma, depth)
+            if t[0] == "bool" and t[1] in ("and", "or"):
+                vals = [truth(x, sigma, depth) for x in t[2]]
+                if t[1] == "or":
+                    return True if any(v is True for v in vals) else (None if any(v is None for v in vals) else False)
+                return False if any(v is False for v in vals) else (None if any(v is None for v in vals) else True)
             if t[0] == "not":
                 v = truth(t[1], sigma)
                 return None if v is None else (not v)
@@ -433,10 +452,19 @@ def check_bookkeeping(prog, ctx, ds):
         f_arg = tmr.term(calls[0][0].args[0] if calls[0][0].func.attr == "scale_factor" else calls[1][0].args[0])
         sf = [x for (x, n) in calls if x.func.attr == "scale_factor"][0]
         sh = [x for (x, n) in calls if x.func.attr == "shift_value"][0]
-        okf = tmr.term(sf.args[0]) == ("op", "Div", (("c", "1.0"), ("a", ("n", "self"), "_scaling_factor"))) or \
-            tmr.term(sf.args[0]) == ("op", "Div", (("c", "1"), ("a", ("n", "self"), "_scaling_factor")))
-        oksh = tmr.term(sh.args[0]) == ("neg", ("op", "Sub", (("call", ("a", ("n", "self"), "get_min_data"), (), ()), ("a", ("n", "self"), "_original_min")))) or \
-            tmr.term(sh.args[0]) == ("op", "Sub", (("a", ("n", "self"), "_original_min"), ("call", ("a", ("n", "self"), "get_min_data"), (), ())))
+        sfa = R.resolve_locals(rv, tmr.term(sf.args[0]), cr.node_containing(sf), tmr)        # temporaries are looked through
+        sha = R.resolve_locals(rv, tmr.term(sh.args[0]), cr.node_containing(sh), tmr)
+        okf = sfa in (("op", "Div", (("c", "1.0"), ("a", ("n", "self"), "_scaling_factor"))), ("op", "Div", (("c", "1"), ("a", ("n", "self"), "_scaling_factor"))))
+        oksh = sha in (("neg", ("op", "Sub", (("call", ("a", ("n", "self"), "get_min_data"), (), ()), ("a", ("n", "self"), "_original_min")))),
+                       ("op", "Sub", (("a", ("n", "self"), "_original_min"), ("call", ("a", ("n", "self"), "get_min_data"), (), ()))))
+        # the minimum that is shifted back must be the minimum AFTER the factor was undone: a temporary holding get_min_data() has to be
+        # defined after the scale_factor call
+        for x_ in ast.walk(sh.args[0]):
+            if isinstance(x_, ast.Name):
+                bd_ = R.reaching_unique_def(rv, x_.id, x_)
+                if bd_ is not None and bd_.kind == "assign" and any(isinstance(y_, ast.Attribute) and y_.attr == "get_min_data" for y_ in ast.walk(bd_.value)):
+                    if cr.node_of(bd_.stmt).idx not in cr.reachable_after(cr.node_containing(sf)):
+                        oksh = False
         nonover = all(not any(k.arg == "override_scaling" and not (isinstance(k.value, ast.Constant) and k.value.value is False) for k in x.keywords) for (x, n) in calls)
         ok = okf and oksh and nonover
         why = "revert_scaling: factor undone by 1/_scaling_factor=%s, shift back to _original_min=%s, non-overriding calls=%s" % (okf, oksh, nonover)
@@ -506,6 +534,10 @@ def check_split_labels(prog, ctx, ds, D0, D1):
                 eqs = (("cmp", "Eq", lv, ("s", D1, ("bv", "$0"))), ("cmp", "Eq", ("s", D1, ("bv", "$0")), lv))
                 by_comp = smp[0] == "comp" and smp[2] == ("bv", "$1") and len(smp[3]) == 1 \
                     and smp[3][0][1] == ("call", ("n", "enumerate"), (D0,), ()) and len(smp[3][0][2]) == 1 and smp[3][0][2][0] in eqs
+                zeqs = (("cmp", "Eq", lv, ("bv", "$1")), ("cmp", "Eq", ("bv", "$1"), lv))
+                by_zip = smp[0] == "comp" and smp[2] == ("bv", "$0") and len(smp[3]) == 1 \
+                    and smp[3][0][1] == ("call", ("n", "zip"), (D0, D1), ()) and len(smp[3][0][2]) == 1 and smp[3][0][2][0] in zeqs
+                by_comp = by_comp or by_zip
                 by_mask = smp[0] == "s" and smp[1] == D0 and smp[2] in (("cmp", "Eq", D1, lv), ("cmp", "Eq", lv, D1))
                 lab = _strip_array(pair[1])
                 lab_ok = contains(lab, lv) and not any(x[0] == "elem" and x != lv for x in subterms(lab))
